@@ -188,6 +188,30 @@ run_pdu_program(char *line, FILE *out) {
       }
       last_parse = r;
       fprintf(out, "%d", r);
+    } else if (!strncmp(step, "psize:", 6)) {
+      /* psize:PROTO:HEX - stream framing: header size and message size as the
+       * stream reader computes them from header + extended-token-length bytes */
+      size_t len, hs, ext, tkl;
+      uint8_t *buf;
+      coap_proto_t proto;
+      nf = split(step, ':', f, 3);
+      proto = proto_of(f[1]);
+      buf = vf_unhex(f[2], strlen(f[2]), &len);
+      if (len < 1) {
+        fputs("short", out);
+      } else {
+        hs = coap_pdu_parse_header_size(proto, buf);
+        tkl = buf[0] & 0x0f;
+        ext = tkl == 13 ? 1 : tkl == 14 ? 2 : 0;
+        if (!hs || len < hs + ext) {
+          fprintf(out, "%zu short", hs);
+        } else {
+          uint8_t *pre = vf_exact(buf, hs + ext);
+          fprintf(out, "%zu %zu", hs, coap_pdu_parse_size(proto, pre, hs + ext));
+          free(pre);
+        }
+      }
+      free(buf);
     } else if (!cur) {
       fputs("nopdu", out);
     } else if (!strncmp(step, "tok:", 4) || !strncmp(step, "utok:", 5)) {
